@@ -35,6 +35,11 @@ Monitors
   specials.*                                         class H (special values): constant, all-zero, single-valid-sample (+, -, exactly 0), constant /
         zero with one invalid sample, one non-zero sample among zeros; dx exactly 0 for half of the cases and through the
         Interferogram default; the Code V step law for every non-zero special map.
+  optargs.*                                          class M (optional arguments in hostile states): write_zygo_dat `intensity=` in every dtype (uint8 .. float64,
+        bool), with the shape of the map and with other shapes, other memory layouts, non-finite, empty, None, positional and keyword; Interferogram
+        objects carrying an `intensity` attribute (constructor, assigned later, or loaded from a file WITH a camera block of 1-3 buckets and re-typed
+        by the caller) and a `meta` dictionary of another file, saved with save_zygo_dat; write_codev_gridint with hostile `comment=` strings.
+        Judged as every round trip; keys `C14/<fmt>/[writer/]arg:<name>=<state>/...`.
   truncation.zygo / truncation.codev                 fault enumeration: for EVERY prefix length 0..len-1 of a written
         file the reader must raise, or return the untruncated result when no sample lost a byte, or return the map
         with NaN at every sample that lost a byte together with a warning (both precisions).
@@ -73,7 +78,10 @@ RULE = ('round trips: shape classes (1xN, Nx1, square, non-square, odd/even; enu
         'factorisation, multiples of 585 (13x45, 39x15, 45x52, 2x585 ...), thorough also every (rows, cols) <= 64x64.  MAGNITUDES (class G): '
         'one base map x height scales 1e-9..1e6 nm (Code V also 1e-12, 1e9, 1e12) x wavelengths 1e-3..1e4 um x spacings 1e-9..1e10 mm with '
         'random mantissas x all configurations; Code V step law step(s z) = s step(z) within a factor 4.  SPECIAL VALUES (class H): constant / '
-        'all-zero / single-valid-sample (+, -, 0) / constant-or-zero with one NaN / one non-zero among zeros x dx exactly 0 or calibrated x routes')
+        'all-zero / single-valid-sample (+, -, 0) / constant-or-zero with one NaN / one non-zero among zeros x dx exactly 0 or calibrated x routes'
+        '.  OPTIONAL ARGUMENTS (class M): intensity= of write_zygo_dat / Interferogram in 8 dtypes x same / other shapes x layouts x non-finite / '
+        'empty / None, meta= of another file, frames handed out by the reader of a file with 1-3 camera buckets (first / avg / last, re-typed), '
+        'comment= of write_codev_gridint (empty, blank, 80 characters, header keywords, digits, punctuation)')
 ASSUMPTIONS = ['the map handed to the writer is the reference; one quantisation step is lambda/32768 (Zygo, phase_res 1) and '
                '1000*WVL/|SSZ| nm as declared in the written Code V header, decoded by an independent parser',
                'single-precision allowance: when the data are float32, config.precision is 32 or the wavelength is a '
@@ -87,6 +95,10 @@ ASSUMPTIONS = ['the map handed to the writer is the reference; one quantisation 
                'declared for s * z is s times the step declared for z; demanded to a factor 4 in either direction (a writer may round its scale); '
                'all-zero maps are exempt (any step represents them).  Zygo: the step is lambda / 32768 whatever the data, nothing beyond the ordinary '
                'oracle is demanded',
+               'optional blocks (class M): the documented optional arguments intensity= (ndarray), meta= (dict) and comment= (str, <= 80 characters) are not '
+               'part of the map / dx / wavelength triple: whatever is passed for them, the triple must come back (on the tree this was established on '
+               'the writer ignores intensity and meta); an Interferogram whose constructor resolves dx / wavelength differently from the explicit '
+               'arguments is not judged; files with a camera block are made by inserting 16-bit frames and the ac_* header fields into a written file',
                'documented defaults (table DEFAULTS, from the signatures and docstrings of the current tree): wavelength = 0.6328 um '
                '(HeNe), intensity = None, typ = SUR, nnb = False, dx = 0; a call that omits an argument must write a file that decodes '
                '(independent decoder) to the same fields as the call that passes the default explicitly; the Zygo time stamp is not compared']
@@ -96,7 +108,7 @@ REQUIRED = ['roundtrip.zygo', 'roundtrip.codev', 'roundtrip.ifg', 'truncation.zy
             'writer.contract.zygo', 'writer.contract.codev', 'reader.contract', 'reader.contract.zygo-eq-decoder',
             'reader.contract.codev-eq-decoder', 'layout.zygo', 'layout.ifg', 'layout.codev', 'defaults.zygo', 'defaults.codev',
             'defaults.readers', 'defaults.omitted-eq-explicit', 'counts.codev', 'counts.zygo', 'counts.ifg', 'scales.codev', 'scales.zygo',
-            'scales.ifg', 'scales.codev.step-law', 'specials.codev', 'specials.zygo', 'specials.ifg']
+            'scales.ifg', 'scales.codev.step-law', 'specials.codev', 'specials.zygo', 'specials.ifg', 'optargs.zygo', 'optargs.ifg', 'optargs.codev']
 
 CTX = None
 F32 = 2.0 ** -23
@@ -466,10 +478,26 @@ def post_write_zygo(z, args, kwargs, result):
             'precision': 32 if _is32() else 64, 'after': hist, 'class': 'contract'}
     CTX.observe('writer.contract.zygo')
     raw = open(path, 'rb').read()
+
+    def blame_intensity():
+        """'arg:intensity=array/' when the call carried a non-empty optional intensity block and the same call without it writes a file
+        that encodes the map (only ever evaluated on a failure); else ''."""
+        inten = a.get('intensity')
+        try:
+            if inten is None or not np.size(inten):
+                return ''
+            with tempfile.TemporaryDirectory(prefix='vp-c14c-') as td:
+                f = os.path.join(td, 'a.dat')
+                pio.write_zygo_dat(f, z, dx, wavelength=wl)                 # monitors are bypassed inside a contract
+                im2 = ref.zygo_read(open(f, 'rb').read())[0]
+                return 'arg:intensity=array/' if classify(im2, z, tolerance(z, step, low))[0] == 'ok' else ''
+        except Exception:  # noqa
+            return ''
     try:
         img, fdx, fwl, _ = ref.zygo_read(raw)
     except Exception as e:  # noqa
-        CTX.violation('C14/zygo/writer/file-undecodable', f'the file written by write_zygo_dat cannot be decoded independently: {e!r}'[:200], desc)
+        CTX.violation(f'C14/zygo/writer/{blame_intensity()}file-undecodable',
+                      f'the file written by write_zygo_dat cannot be decoded independently: {e!r}'[:200], desc)
         return
     if abs(fdx - cur[0]) > scalar_tol(cur[0], low):
         CTX.violation(f'C14/zygo/writer/header-dx/{hist}', 'the lateral spacing in the written Zygo header is not the dx the writer was '
@@ -480,6 +508,12 @@ def post_write_zygo(z, args, kwargs, result):
                       written_um=fwl, given_um=cur[1], previous_write=prev)
         return      # the quantisation step of the file is not the one the caller asked for: the map comparison would only repeat this
     cls, _ = classify(img, z, tolerance(z, step, low))
+    if cls != 'ok' and blame_intensity():
+        CTX.violation(f'C14/zygo/writer/arg:intensity=array/{cls}', 'the file written by write_zygo_dat does not encode the map it was given when the '
+                      f'optional intensity block is passed (it does without it): {cls}', dict(desc, intensity_dtype=str(getattr(a['intensity'], 'dtype', None)),
+                                                                                            intensity_shape=list(np.shape(a['intensity']))),
+                      decoded_shape=list(img.shape), max_err_nm=_maxerr(img, z), step_nm=step)
+        return
     if cls != 'ok':
         def reproduces(parts):
             z2, w2, prec = with_parts(z, wl, parts)
@@ -1248,6 +1282,223 @@ def specials(ctx, tmp):
     ctx.note('specials', {'maps': SPECIAL_MAPS, 'shapes': len(shapes), 'dx': 'exactly 0 for half of the cases and for the Interferogram default'})
 
 
+# ---------------------------------------------------------------------------------------------- optional arguments in hostile states (class M)
+# Every documented optional argument of the writers that is not part of the map / dx / wavelength triple, in the states the ordinary
+# workloads never pass.  Established on the current tree (signatures + docstrings): write_zygo_dat(..., intensity=ndarray, optional),
+# Interferogram(..., intensity=ndarray optional, meta=dict) -> save_zygo_dat, write_codev_gridint(..., comment=str up to 80 characters).
+# The current tree accepts every state below (it ignores the intensity block and the meta dictionary when dx / wavelength are explicit).
+INTENSITY_DTYPES = ['uint8', 'uint16', 'int16', 'int32', 'int64', 'float32', 'float64', 'bool']
+OPT_SHAPES = [(3, 4), (5, 2), (1, 6), (7, 1), (6, 6), (2, 9), (16, 16), (9, 13)]
+CODEV_COMMENTS = [('empty', ''), ('blank', ' '), ('80-characters', 'x' * 80), ('header-keywords', 'GRD 9 9 SUR WVL 2.0 SSZ 5 NDA 7'),
+                  ('padded', '  padded  '), ('digits', '12345 678'), ('punctuation', "it's 50% done; #1")]
+
+
+def intensity_states(shape, rng):
+    """[(state label, detail, array or None)]: the optional camera frame in every dtype, with the shape of the map and with other
+    shapes, in other memory layouts, with non-finite samples, empty, None."""
+    H, W = shape
+    out = [('None', 'None', None)]
+    for dt in INTENSITY_DTYPES:
+        frame = rng.random(shape) * (1.0 if dt == 'bool' else 200.0 if dt == 'uint8' else 4000.0)
+        out.append(('array', f'{dt}/same-shape', (frame > 0.5) if dt == 'bool' else frame.astype(dt)))
+    others = [(W, H) if H != W else (H, W + 1), (H + 1, W + 2), (1, 3), (2 * H, 2 * W), (max(H - 1, 1), W), (1, 1)]
+    for i, sh in enumerate(others):
+        dt = ['float64', 'uint16', 'uint8', 'float32', 'int64', 'int32'][i]
+        out.append(('array', f'{dt}/other-shape', (rng.random(sh) * 3000).astype(dt)))
+    f = rng.random(shape) * 1000
+    out.append(('array', 'float64/column-major', np.asfortranarray(f)))
+    out.append(('array', 'uint16/strided', as_layout(f.astype('uint16'), 'S')))
+    out.append(('array', 'float32/strided', as_layout(f.astype('float32'), 'S')))
+    g = f.copy()
+    g.flat[0] = np.nan
+    g.flat[-1] = np.inf
+    out.append(('array', 'float64/non-finite', g))
+    out.append(('array', 'float64/normalised', f / f.max()))
+    out.append(('empty', 'uint16/(0,0)', np.zeros((0, 0), dtype='uint16')))        # what read_zygo_dat returns for a file without a frame
+    out.append(('empty', 'float64/(0,0)', np.zeros((0, 0))))
+    out.append(('empty', f'float32/(0,{W})', np.zeros((0, W), dtype='float32')))
+    return out
+
+
+def zygo_with_frames(raw, frames):
+    """The bytes of a written .dat with a camera block (n_buckets, h, w) of 16-bit counts inserted between header and phase block and
+    the acquisition fields of the header (ac_width 52, ac_height 54, ac_n_buckets 56, ac_range 58, ac_n_bytes 60; big-endian) set."""
+    import struct
+    hs = ref.zygo_header(raw)['header_size']
+    nb, ih, iw = frames.shape
+    head = bytearray(raw[:hs])
+    struct.pack_into('>HHHH', head, 52, iw, ih, nb, 65535)
+    struct.pack_into('>I', head, 60, frames.size * 2)
+    return bytes(head) + frames.astype('<u2').tobytes(order='C') + raw[hs:]
+
+
+def optargs(ctx, tmp):
+    """Class M.  The map / dx / wavelength round trip must hold whatever optional blocks travel with the call: write_zygo_dat with
+    `intensity=` in every dtype / shape / layout / empty / None (positional and keyword), Interferogram objects that carry an
+    `intensity` attribute (given to the constructor, assigned afterwards, or loaded from a file that has a camera block -- as read,
+    averaged over buckets, normalised by the caller) and a `meta` dictionary taken from ANOTHER file, saved with save_zygo_dat;
+    write_codev_gridint with hostile `comment=` strings.  Judged as every round trip; a failure the plain round trips of this
+    process did not show is keyed `C14/<fmt>/arg:<name>=<state>/<symptom>`."""
+    from prysm import io as pio
+    from prysm.interferogram import Interferogram
+    shapes = OPT_SHAPES[:ctx.pick(5, len(OPT_SHAPES))]
+    rs = np.random.default_rng([ctx.seed, 14210])
+    shapes = shapes + [(int(rs.integers(1, 40)), int(rs.integers(1, 40))) for _ in range(ctx.pick(0, 400))]
+    k = -1
+
+    def judge(desc, path, keep, dx, wl, route, part):
+        got, dx2, wl2, obj = read_zygo(path, route)
+        judge_zygo(ctx, tmp, path, desc, keep, dx, wl, got, dx2, wl2, route, 'optargs.' + ('zygo' if route == 'io' else 'ifg'),
+                   lambda f, w: part_key(ctx, f, part, w.split('/')[0]))
+        return obj
+
+    for si, shape in enumerate(shapes):
+        n_states = len(intensity_states(shape, np.random.default_rng(0)))
+        for ii in range(n_states):
+            for ri, route in enumerate(('io', 'ifg')):
+                k += 1
+                if not ctx.mine(k):
+                    continue
+                rng = np.random.default_rng([ctx.seed, 1421, k])
+                state, detail, inten = intensity_states(shape, rng)[ii]
+                dt, prec = CFGS[(si + ii) % 4] if (k % 4 == 3) else CFGS[0]
+                wl = float(rng.uniform(0.4, 2.0))
+                dx = float(10 ** rng.uniform(-3, 1))
+                zm = make_values(['mixed', 'pos-small', 'neg'][k % 3], shape, rng, 'zygo', wl)
+                ncls = put_nans(NAN_CLASSES[(k // 2) % 4], zm, rng)
+                z = as_dtype(zm, dt)
+                rname = 'zygo' if route == 'io' else 'ifg'
+                metacls = 'None'
+                desc = {'wl': 'optargs', 'route': rname, 'shape': shape, 'arg': 'intensity', 'state': state, 'intensity': detail, 'nan': ncls, 'dtype': dt,
+                        'precision': prec, 'dx': dx, 'wavelength': wl, 'k': k, 'class': f'optargs:{rname}:intensity={state}:{detail}:{dt}/p{prec}'}
+                part = f'arg:intensity={state}'
+                path = os.path.join(tmp, f'o{ctx.shard}.dat')
+                with precision(prec), ctx.guard(f'C14/{rname}/arg:intensity={state}/roundtrip', desc), warnings.catch_warnings():
+                    warnings.simplefilter('ignore')
+                    keep = np.array(z, copy=True)
+                    if route == 'io':
+                        ctx.case(desc, nontrivial=z.size >= 2)
+                        if k % 4 < 2:
+                            pio.write_zygo_dat(path, z, dx, wl, inten)
+                        else:
+                            pio.write_zygo_dat(file=path, phase=z, dx=dx, intensity=inten, wavelength=wl)
+                    else:
+                        how = ['constructor', 'assigned-later', 'constructor+foreign-meta'][(k // 2) % 3]
+                        meta = None
+                        if how == 'constructor+foreign-meta':
+                            # the meta dictionary of another file (other size, spacing, acquisition fields); its wavelength entry agrees
+                            # with the explicit argument, which the constructor documents to win anyway
+                            po = os.path.join(tmp, f'om{ctx.shard}.dat')
+                            pio.write_zygo_dat(po, np.arange(6.0).reshape(2, 3), dx * 3, wavelength=wl)
+                            with open(po, 'rb') as fh:
+                                raw = fh.read()
+                            with open(po, 'wb') as fh:
+                                fh.write(zygo_with_frames(raw, (rng.random((2, 3, 2)) * 900).astype('uint16')))
+                            meta = dict(pio.read_zygo_dat(po)['meta'])
+                            metacls = 'foreign-file'
+                            # label: the meta dictionary, unless the same intensity state already failed in this process without one
+                            ipart = part
+                            part = lambda w, ipart=ipart: ipart if any(k_.startswith(f'C14/ifg/{ipart}/') or k_.startswith(f'C14/zygo/{ipart}/')   # noqa: E731
+                                                                       for k_ in ctx.violations) else 'arg:meta=foreign-file'
+                        desc.update(how=how, meta=metacls)
+                        ctx.case(desc, nontrivial=z.size >= 2)
+                        if how == 'assigned-later':
+                            ifg = Interferogram(z, dx=dx, wavelength=wl)
+                            ifg.intensity = inten
+                        else:
+                            ifg = Interferogram(z, dx, wl, inten, meta) if k % 4 < 2 else Interferogram(z, dx=dx, wavelength=wl, intensity=inten, meta=meta)
+                        if float(ifg.dx) != dx or float(ifg.wavelength) != wl:
+                            ctx.skip('optargs: the constructor resolved dx / wavelength differently from the explicit arguments (not judged here)')
+                            continue
+                        ifg.save_zygo_dat(path)
+                    judge(desc, path, keep, dx, wl, route, part)
+                    ctx.require('writer.input-untouched', np.array_equal(z, keep, equal_nan=True), f'C14/{rname}/writer-mutates-input',
+                                'the writer modified the caller\'s array', desc)
+
+    # objects / dictionaries that come out of the reader of a file WITH a camera block, written again
+    k = -1
+    for si, shape in enumerate(shapes[:ctx.pick(4, 200)]):
+        for bi, (nb, fshape) in enumerate(((1, shape), (3, shape), (2, (shape[0] + 1, shape[1] + 2)), (1, (2, 3)))):
+            for ai, action in enumerate(('first', 'avg', 'last', 'first+normalised', 'first+float32', 'first+uint8')):
+                for ri, route in enumerate(('io', 'ifg')):
+                    k += 1
+                    if not ctx.mine(k):
+                        continue
+                    rng = np.random.default_rng([ctx.seed, 1422, k])
+                    dt, prec = CFGS[(si + bi + ai) % 4] if (k % 4 == 3) else CFGS[0]
+                    wl = float(rng.uniform(0.4, 2.0))
+                    dx = float(10 ** rng.uniform(-3, 1))
+                    zm = make_values('mixed', shape, rng, 'zygo', wl)
+                    ncls = put_nans(NAN_CLASSES[k % 4], zm, rng)
+                    rname = 'zygo' if route == 'io' else 'ifg'
+                    desc = {'wl': 'optargs', 'route': rname, 'shape': shape, 'arg': 'intensity', 'state': 'from-reader', 'buckets': nb, 'frame_shape': fshape,
+                            'action': action, 'nan': ncls, 'dtype': dt, 'precision': prec, 'dx': dx, 'wavelength': wl, 'k': k,
+                            'class': f'optargs:{rname}:intensity=from-reader:{action}:{nb}-buckets:{dt}/p{prec}'}
+                    ctx.case(desc, nontrivial=zm.size >= 2)
+                    part = 'arg:intensity=from-reader'
+                    p0, p1, p2 = (os.path.join(tmp, f'or{ctx.shard}{c}.dat') for c in 'abc')
+                    with precision(prec), ctx.guard(part_key(ctx, rname, part, 'roundtrip'), desc), warnings.catch_warnings():
+                        warnings.simplefilter('ignore')
+                        pio.write_zygo_dat(p0, as_dtype(zm, dt), dx, wavelength=wl)
+                        with open(p0, 'rb') as fh:
+                            raw = fh.read()
+                        with open(p1, 'wb') as fh:
+                            fh.write(zygo_with_frames(raw, (rng.random((nb,) + tuple(fshape)) * 4000).astype('uint16')))
+                        act = action.split('+')[0]
+                        if route == 'io':
+                            r = pio.read_zygo_dat(p1, multi_intensity_action=act)
+                            m, inten = r['phase'], r['intensity']
+                            mdx, mwl = r['meta']['lateral_resolution'] * 1e3, r['meta']['wavelength'] * 1e6
+                        else:
+                            j = Interferogram.from_zygo_dat(p1, multi_intensity_action=act)
+                            m, inten, mdx, mwl = j.data, j.intensity, j.dx, j.wavelength
+                        if inten is None or np.shape(inten) != tuple(fshape):
+                            ctx.skip('optargs: the reader does not hand out the camera frame of the file (nothing to pass on)')
+                            continue
+                        if action.endswith('normalised'):
+                            inten = inten / max(float(np.max(inten)), 1.0)
+                        elif action.endswith('float32'):
+                            inten = inten.astype('float32')
+                        elif action.endswith('uint8'):
+                            inten = (inten // 16).astype('uint8')
+                        keep = np.array(m, copy=True)
+                        if route == 'io':
+                            pio.write_zygo_dat(p2, m, mdx, wavelength=mwl, intensity=inten)
+                        else:
+                            j.intensity = inten
+                            j.save_zygo_dat(p2)
+                        judge(dict(desc, dtype=str(keep.dtype)), p2, keep, mdx, mwl, route, part)
+
+    # Code V: hostile comment strings (documented: up to 80 characters)
+    k = -1
+    for si, shape in enumerate(shapes[:ctx.pick(3, 100)]):
+        for ci, (ccls, comment) in enumerate(CODEV_COMMENTS):
+            k += 1
+            if not ctx.mine(k):
+                continue
+            rng = np.random.default_rng([ctx.seed, 1423, k])
+            dt, prec = CFGS[(si + ci) % 4] if (k % 4 == 3) else CFGS[0]
+            zm = make_values(['mixed', 'neg', 'pos-large'][k % 3], shape, rng, 'codev', 1.0)
+            ncls = put_nans(NAN_CLASSES[k % 4], zm, rng)
+            z = as_dtype(zm, dt)
+            desc = {'wl': 'optargs', 'route': 'codev', 'shape': shape, 'arg': 'comment', 'state': ccls, 'nan': ncls, 'dtype': dt, 'precision': prec, 'k': k,
+                    'class': f'optargs:codev:comment={ccls}:{dt}/p{prec}'}
+            ctx.case(desc, nontrivial=z.size >= 2)
+            part = f'arg:comment={ccls}'
+            path = os.path.join(tmp, f'oc{ctx.shard}.int')
+            with precision(prec), ctx.guard(part_key(ctx, 'codev', part, 'roundtrip'), desc), warnings.catch_warnings():
+                warnings.simplefilter('ignore')
+                keep = np.array(z, copy=True)
+                if k % 2:
+                    pio.write_codev_gridint(z, path, comment, ['SUR', 'WFR'][k % 4 // 2], bool(k % 3 == 0))
+                else:
+                    pio.write_codev_gridint(z, path, comment=comment)
+                got, _ = pio.read_codev_gridint(path)
+                judge_codev(ctx, tmp, path, desc, keep, got, 'optargs.codev', lambda w: part_key(ctx, 'codev', part, w.split('/')[0]))
+    ctx.note('optargs', {'intensity_dtypes': INTENSITY_DTYPES, 'shapes': len(shapes), 'codev_comments': [c for c, _ in CODEV_COMMENTS],
+                         'from_reader': 'files with 1-3 camera buckets (inserted by the harness) read with first / avg / last, frame re-typed by the caller'})
+
+
 # ---------------------------------------------------------------------------------------------- omitted vs explicit defaults
 # Documented defaults of the optional arguments (signatures and docstrings of the tree as it is now):
 DEFAULTS = {
@@ -1764,6 +2015,7 @@ def run(ctx):
             counts(ctx, tmp)             # class I: every sample count
             scales(ctx, tmp)             # class G: magnitudes of heights / dx / wavelength
             specials(ctx, tmp)           # class H: constant / zero / single-valid-sample maps, dx exactly 0
+            optargs(ctx, tmp)            # class M: optional blocks (intensity= / meta= / comment=) in hostile states
             truncation(ctx, tmp)
             histories(ctx, tmp)          # after the round trips: a failure they already showed is not a history effect
             foreign_traffic(ctx, tmp)    # class F: other consumers of the shared header table / configuration, then ...
